@@ -95,7 +95,7 @@ Proof.
     injection H as <- <-.
     inversion Hlex as [|? ? Hl1 Hl2]; subst. inversion Hsmall as [|? ? Hs1 Hs2]; subst.
     cbn [length] in Hlt.
-    destruct (pstep_inv lim Hlim false ecma ps tok ps1 mk Hinv Hl1 Hs1 ltac:(discriminate) ltac:(lia) E1) as [P1 [P2 _]].
+    destruct (pstep_inv lim Hlim false ecma ps tok ps1 mk Hinv Hl1 Hs1 ltac:(lia) E1) as [P1 [P2 _]].
     destruct (IH ps1 ps2 mks2 Hlim P1 Hl2 Hs2 ltac:(lia) E2) as [I1 [I2 [I3 I4]]].
     pose proof (pstep_cases _ _ _ _ _ _ E1) as C.
     destruct mk.
@@ -134,7 +134,7 @@ Qed.
      that are not explicit numbers ([chain]); a repeated name has one entry, hence one number;
    - and these are all the group numbers. *)
 Theorem numbering_default : forall lim o ts t mks,
-  ts_ok lim false false ts ->
+  ts_ok_unguarded lim ts ->
   prescan false false o ts = Ok (t, mks) ->
   let u := Z.of_nat (length (autos mks)) in
   autos mks = map (fun i => 1 + Z.of_nat i) (seq 0 (length (autos mks)))
@@ -146,13 +146,13 @@ Theorem numbering_default : forall lim o ts t mks,
           | None => new_names [] (pnames mks) = []
           end.
 Proof.
-  intros lim o ts t mks [Hlex [Hsmall [Hun [Hlim Hb]]]] H. cbn zeta.
+  intros lim o ts t mks [Hlex [Hsmall [Hlim Hb]]] H. cbn zeta.
   unfold prescan in H.
   destruct (prun false false (p_init o) ts) as [[st mks']| | |] eqn:Ep; try discriminate. cbn [bind] in H.
   destruct (assign_default (p_c st)) as [t'| | |] eqn:Ea; try discriminate. cbn [bind] in H.
   injection H as <- <-.
   pose proof (prun_len _ _ _ _ _ _ Ep) as Hnl. cbn in Hnl.
-  destruct (prun_inv lim Hlim false false ts (p_init o) st mks' (pinv_init lim false) Hlex Hsmall Hun
+  destruct (prun_inv lim Hlim false false ts (p_init o) st mks' (pinv_init lim false) Hlex Hsmall
               ltac:(cbn [p_init p_c c_init c_autocap]; lia) Ep) as [Hinv [Hauto _]].
   cbn [p_init p_c c_init c_autocap] in Hauto.
   destruct (prun_shape_default lim false ts (p_init o) st mks' Hlim (pinv_init lim false) Hlex Hsmall
@@ -207,13 +207,12 @@ Qed.
 
 Lemma prun_shape_mco : forall lim ecma ts ps ps' mks get,
   lim <= maxint32 -> pinv lim true (p_c ps) -> Forall tok_lex ts -> Forall (tok_small lim) ts ->
-  (ecma = false -> Forall tok_unnumbered ts) ->
   c_autocap (p_c ps) + Z.of_nat (length ts) < maxint32 ->
   prun true ecma ps ts = Ok (ps', mks) ->
   (forall s v, aget s (names_of (p_c ps')) = Some v -> get s = Some v) ->
   mco_rule get (c_autocap (p_c ps)) (c_capnamelist (p_c ps)) mks.
 Proof.
-  intros lim ecma ts. induction ts as [|tok ts IH]; intros ps ps' mks get Hlim Hinv Hlex Hsmall Hun Hlt H Hget.
+  intros lim ecma ts. induction ts as [|tok ts IH]; intros ps ps' mks get Hlim Hinv Hlex Hsmall Hlt H Hget.
   - cbn in H. injection H as <- <-. exact I.
   - cbn [prun] in H.
     destruct (pstep true ecma ps tok) as [[ps1 mk]| | |] eqn:E1; try discriminate. cbn [bind] in H.
@@ -221,13 +220,9 @@ Proof.
     injection H as <- <-.
     inversion Hlex as [|? ? Hl1 Hl2]; subst. inversion Hsmall as [|? ? Hs1 Hs2]; subst.
     cbn [length] in Hlt.
-    assert (Hu1 : true = true -> ecma = false -> tok_unnumbered tok).
-    { intros _ B. specialize (Hun B). now inversion Hun. }
-    assert (Hu2 : ecma = false -> Forall tok_unnumbered ts).
-    { intros B. specialize (Hun B). now inversion Hun. }
-    destruct (pstep_inv lim Hlim true ecma ps tok ps1 mk Hinv Hl1 Hs1 Hu1 ltac:(lia) E1) as [P1 [P2 _]].
-    destruct (prun_inv lim Hlim true ecma ts ps1 ps2 mks2 P1 Hl2 Hs2 ltac:(intros _; exact Hu2) ltac:(lia) E2) as [_ [_ [_ [Q4 _]]]].
-    pose proof (IH ps1 ps2 mks2 get Hlim P1 Hl2 Hs2 Hu2 ltac:(lia) E2 Hget) as R.
+    destruct (pstep_inv lim Hlim true ecma ps tok ps1 mk Hinv Hl1 Hs1 ltac:(lia) E1) as [P1 [P2 _]].
+    destruct (prun_inv lim Hlim true ecma ts ps1 ps2 mks2 P1 Hl2 Hs2 ltac:(lia) E2) as [_ [_ [_ [Q4 _]]]].
+    pose proof (IH ps1 ps2 mks2 get Hlim P1 Hl2 Hs2 ltac:(lia) E2 Hget) as R.
     pose proof (pstep_cases _ _ _ _ _ _ E1) as C.
     destruct mk; cbn [mco_rule].
     + rewrite C in R. exact R.
@@ -247,20 +242,19 @@ Qed.
 
 (* numbering_rule with MaintainCaptureOrder (also ECMAScript, RE2): pure pattern order *)
 Theorem numbering_ordered : forall lim ecma o ts t mks,
-  ts_ok lim true ecma ts ->
+  ts_ok_unguarded lim ts ->
   prescan true ecma o ts = Ok (t, mks) ->
   mco_rule (fun s => match t_capnames t with Some m => aget s m | None => None end) 1 [] mks.
 Proof.
-  intros lim ecma o ts t mks [Hlex [Hsmall [Hun [Hlim Hb]]]] H.
+  intros lim ecma o ts t mks [Hlex [Hsmall [Hlim Hb]]] H.
   unfold prescan in H.
   destruct (prun true ecma (p_init o) ts) as [[st mks']| | |] eqn:Ep; try discriminate. cbn [bind] in H.
   destruct (assign_ordered ecma (p_c st)) as [t'| | |] eqn:Ea; try discriminate. cbn [bind] in H.
   injection H as <- <-.
-  destruct (prun_inv lim Hlim true ecma ts (p_init o) st mks' (pinv_init lim true) Hlex Hsmall Hun
+  destruct (prun_inv lim Hlim true ecma ts (p_init o) st mks' (pinv_init lim true) Hlex Hsmall
               ltac:(cbn [p_init p_c c_init c_autocap]; lia) Ep) as [Hinv _].
-  destruct (assign_ordered_wf lim ecma (p_c st) t' Hinv Ea) as [_ [_ H3]].
+  destruct (assign_ordered_weak lim ecma (p_c st) t' Hinv Ea) as [_ [_ H3]].
   apply (prun_shape_mco lim ecma ts (p_init o) st mks' _ Hlim (pinv_init lim true) Hlex Hsmall); try assumption.
-  - intros B. now apply Hun.
   - cbn [p_init p_c c_init c_autocap]. lia.
   - intros s v Hv. destruct (H3 s v Hv) as [m [-> Hm]]. exact Hm.
 Qed.
